@@ -20,6 +20,10 @@ P_KeyHoldersOnly(o) == /\ (o.resultS \in L(o) => HonestKind(o.l[o.resultS].kind)
 P_OthersClosed(o) == /\ \A l \in L(o) : (o.resultS # "-" /\ l # o.resultS) => ~Live(o.l[l].stS)
                      /\ \A l \in L(o) : (o.resultR # "-" /\ l # o.resultR) => ~Live(o.l[l].stR)
 P_Deadline(o) == (o.deadlineS => o.resultS # "-") /\ (o.deadlineR => o.resultR # "-")
+\* the connection a party's negotiation settled on is what its connect() returns, whenever connect() is called
+NegotiatedR(o, l) == \E i, j \in 1..Len(o.l[l].gotR) : i < j /\ o.l[l].gotR[i] = "SH" /\ o.l[l].gotR[j] = "go"
+P_WinnerReturned(o) == /\ \A l \in L(o) : (o.startedS /\ InSeq("go", o.l[l].sentS)) => o.resultS = l
+                       /\ \A l \in L(o) : (o.startedR /\ HonestKind(o.l[l].kind) /\ NegotiatedR(o, l)) => o.resultR = l
 P_NoInternal(o) == o.internal = <<>>
 
 VARIABLE k
@@ -27,6 +31,6 @@ Init == k = 0
 Next == k < Len(All) /\ k' = k + 1
         /\ PrintT(<<"OBS", All[k'].tid, <<P_AtMostOneGo(All[k']), P_GoOnlyAfterRH(All[k']), P_ReceiverNeedsGo(All[k']),
                                           P_SameLink(All[k']), P_KeyHoldersOnly(All[k']), P_OthersClosed(All[k']),
-                                          P_Deadline(All[k']), P_NoInternal(All[k'])>>>>)
+                                          P_Deadline(All[k']), P_NoInternal(All[k']), P_WinnerReturned(All[k'])>>>>)
 Spec == Init /\ [][Next]_k
 ====
